@@ -680,6 +680,8 @@ def weave_fn(w, spec, text, fn_label, item_index, twin):
             nth = int(nth)
         if nth is None and cnt != 1:
             raise WeaveError("%s: anchor %r matched %d times" % (fn_label, anchor, cnt))
+        if nth is not None and optional and not (1 <= nth <= cnt):
+            continue      # `before?#n`: the n-th occurrence went away with its anchor
         if nth is not None and not (1 <= nth <= cnt):
             raise WeaveError("%s: anchor %r occurrence %d of %d not found" % (fn_label, anchor, nth, cnt))
         p = body_open
